@@ -16,4 +16,13 @@ PROPS = {
                 "DNSEngine (every listed name, near misses and an unlisted name are queried); non-trivial = a host rule was produced; "
                 "distinct by hash of the op input",
     },
+    "C17": {
+        "families": [fam("c17", 1000, 12000)],
+        "rule": "URLs of the property's grammar (scheme://host[:port][/path|?query][#fragment]) with hosts drawn from the PSL's own rule "
+                "shapes (multi-level, wildcard, exception, private suffixes, single labels, unknown TLDs, IPv4), sources of the same shape "
+                "(same registrable domain / other / none), plus odd and mutated URLs and URLs around the 4 KiB cap; c17.req/c17.hostreq/"
+                "c17.etld compare NewRequest/NewRequestForHostname/effectiveTLDPlusOne with the Lean model and the reference request; "
+                "assert lines compare with net/url and publicsuffix.EffectiveTLDPlusOne in Go; non-trivial = every request record; "
+                "distinct by hash of the op input",
+    },
 }
